@@ -1284,8 +1284,10 @@ def _corr_extension(ctx, bulk, tabs, vals, ok, floats):
         req.append(q)
         want.append(w)
         inputs.append(inp)
-        ctx.case(("foreign", q), branch="foreign-cards:" + ("none-read" if w.startswith("n") else "some-read"))
         low = nm.lower()
+        # (classified by the input, not by what the code returns: a broken reader must disagree, not starve a branch)
+        ctx.case(("foreign", q), branch="foreign-cards:" + (
+            "some-read" if any(c["name"].ljust(8).lower().startswith(low) for c, _ in cs) else "none-read"))
         for c, t in cs:
             hit = c["name"].ljust(8).lower().startswith(low)
             lines = t.count("\n")
